@@ -10,7 +10,7 @@
 From stdpp Require Import gmap list.
 From Coq Require Import ZArith.
 
-Definition id := nat.
+Notation id := nat (only parsing).
 
 Record node := Node {
   n_gen      : nat;                (* identity of the node object *)
